@@ -43,14 +43,15 @@ def main():
     paths = {os.path.realpath(os.path.join(boot.REPO, f)): f for f in files if os.path.exists(os.path.join(boot.REPO, f))}
     hit = {p: set() for p in paths}
 
+    cache = {}
+
     def tracer(frame, event, arg):
         p = frame.f_code.co_filename
-        if p not in hit:
-            rp = os.path.realpath(p)
-            if rp not in hit:
-                return None
-            p = rp
-        s = hit[p]
+        s = cache.get(p, 0)
+        if s == 0:
+            s = cache[p] = hit.get(p) if p in hit else hit.get(os.path.realpath(p))
+        if s is None:
+            return None
 
         def local(frame, event, arg):
             if event == "line":
